@@ -2,6 +2,7 @@
   C07 — files conform to the documented v1 format, in both directions.
 -/
 import BS.Proofs.SpecDecode
+import BS.Proofs.SpecFile
 
 namespace BS.Props.C07
 open BS BS.Impl
@@ -41,5 +42,17 @@ theorem reader_reads_canonical {σ : Type} (p : Nat) (cb : Option Bool) (proc : 
   readRegion_canonical p cb proc ps e es hv
 
 example : Valid 0 [⟨65535, []⟩, ⟨65536, []⟩] := by simp [Valid]
+
+/-- **The whole file, forward direction.**  The independent reference decoder of `Spec.lean` —
+which knows only the documented layout: a u16 header length, two newlines, a u32 text length, the
+preamble text with the payload size in decimal, the user header, then lines and marker lines — takes
+the canonical file of ANY valid history, for any payload size a usize holds and any user header
+(any bytes, also ones that look like the preamble's own wording), and returns exactly
+(user header, payload size, history).  Together with C15 (the library's file IS the canonical file,
+byte for byte) this is "a file written by the library can be decoded by an independent reader". -/
+theorem whole_file_decodes (p : Nat) (hp : p ≤ u64Max) (user : Bytes) (xs : List Entry) (hv : Valid p xs)
+    (hH : (Spec.innerHeader p user).length ≤ 65535) :
+    Spec.refDecodeFile (Spec.dataFile p user xs) = some (user, p, xs) :=
+  Spec.refDecodeFile_dataFile p hp user xs hv hH
 
 end BS.Props.C07
